@@ -262,24 +262,31 @@ def run(ctx):
     ua, fa = G.defs[ka]
     Fa = ctx.facts(fa)
     ga = ctx.cfg(fa)
+    def _is_len(b_):
+        rb = Fa.resolve_key(b_)
+        return ' - ' in rb or rb.startswith('strcspn(') or rb.startswith('strspn(') or '.size()' in rb or '.length()' in rb
+    seen_kind = {'plain': [], 'quoted': []}
     for rn in ga.returns:
         rk = Fa.keys.key(kids(rn.ast)[0])
         if rk == 'null':
             continue
-        hp = Fa.path_facts([rn], history=True)
-        okall = bool(hp)
-        kind = set()
-        for (now, ever) in hp:
+        for (now, ever) in Fa.path_facts([rn], history=True):
             quoted = any(op == '==' and 'n:60' in (a, b) for (op, a, b) in ever)
-            def _is_len(b_):
-                rb = Fa.resolve_key(b_)
-                return ' - ' in rb or rb.startswith('strcspn(') or rb.startswith('strspn(') or '.size()' in rb or '.length()' in rb
-            longen = any((op == '<=' and a == 'n:3' and _is_len(b)) or (op == '<' and a == 'n:2' and _is_len(b)) for (op, a, b) in now)
-            kind.add('quoted' if quoted else 'plain')
-            okall = okall and (quoted or longen)
-        ctx.check(okall, 'C16-end', 'abbreviation is <...> or at least three characters', rn.ast,
-                  'ParseAbbr succeeds with an unquoted abbreviation shorter than three characters',
-                  construct='abbr:%s' % '+'.join(sorted(kind)), detail='+'.join(sorted(kind)))
+            mins = [int(a[2:]) + (1 if op == '<' else 0) for (op, a, b) in now
+                    if op in ('<=', '<') and a.startswith('n:') and re.match(r'^n:-?\d+$', a) and _is_len(b)]
+            seen_kind['quoted' if quoted else 'plain'].append((rn, max(mins) if mins else 0))
+    pl, qu = seen_kind['plain'], seen_kind['quoted']
+    short = [rn for (rn, m_) in pl if m_ < 3]
+    ctx.check(bool(pl) and not short, 'C16-end', 'an unquoted abbreviation has at least three characters', short[0].ast if short else fa,
+              'ParseAbbr succeeds with an unquoted abbreviation shorter than three characters' if pl else
+              'no accepting path of ParseAbbr for the unquoted form was found', construct='abbr:plain',
+              detail='%d accepting path(s)' % len(pl))
+    limited = [(rn, m_) for (rn, m_) in qu if m_ > 0]
+    ctx.check(bool(qu) and not limited, 'C16-end', 'a quoted <...> abbreviation may have any length', limited[0][0].ast if limited else fa,
+              ('ParseAbbr accepts a quoted abbreviation only when it has at least %d characters: the grammar puts no minimum on the '
+               '<...> form, so valid strings such as <+1>-1 are refused' % (limited[0][1] if limited else 0)) if qu else
+              'no accepting path of ParseAbbr for the <...> form was found', construct='abbr:quoted',
+              detail='%d accepting path(s)' % len(qu))
     ctx.minimum('C16-end', 6)
 
     # ---- C16-nul
@@ -316,7 +323,7 @@ def run(ctx):
 
     # ---- C16-ovf: guarded accumulate in ParseInt
     n_acc_ = check_guarded_accumulate(ctx, 'C16-ovf', G.one('cctz::ParseInt', 'int*'))
-    ctx.minimum('C16-ovf', 2)
+    ctx.minimum('C16-ovf', 1)
 
 
 def _conjuncts(e):
@@ -331,6 +338,22 @@ def _is_nul_test(F, c):
         if op == '==' and 'n:0' in (a, b) and (a if b == 'n:0' else b).startswith('*('):
             return True
     return False
+
+
+def _fused_accumulate(keys, tgt, pr):
+    """(c, d-expression) when pr is  tgt * c + d  /  d + tgt * c  /  c * tgt + d."""
+    if pr is None or pr.get('kind') != 'BinaryOperator' or pr.get('opcode') != '+':
+        return None
+    tk = keys.key(tgt)
+    for (m_, d_) in ((kids(pr)[0], kids(pr)[1]), (kids(pr)[1], kids(pr)[0])):
+        pm = peel(m_)
+        if pm is not None and pm.get('kind') == 'BinaryOperator' and pm.get('opcode') == '*':
+            ka, kb = keys.key(kids(pm)[0]), keys.key(kids(pm)[1])
+            if ka == tk and re.match(r'^n:\d+$', kb):
+                return int(kb[2:]), d_
+            if kb == tk and re.match(r'^n:\d+$', ka):
+                return int(ka[2:]), d_
+    return None
 
 
 def check_guarded_accumulate(ctx, rule, fkey):
@@ -358,6 +381,27 @@ def check_guarded_accumulate(ctx, rule, fkey):
                     keys.key(kids(pr)[1]) == keys.key(tgt) and peel(tgt).get('kind') == 'DeclRefExpr':
                 rhs = kids(pr)[0]
                 op_ = pr.get('opcode') + '='
+            else:
+                # the fused form  v = v * c + d  (either operand order): one step that must fit as a whole
+                fused = _fused_accumulate(keys, tgt, pr)
+                if fused is not None and peel(tgt).get('kind') == 'DeclRefExpr':
+                    c_, dexpr = fused
+                    tk = keys.key(tgt)
+                    it = int_type(dtype(tgt))
+                    if it and it[0] >= 32:
+                        lo, hi = type_range(it)
+                        fs = F.facts_at_ast(x) or frozenset()
+                        dk = keys.key(dexpr)
+                        vb = [int(b[2:]) - (1 if o == '<' else 0) for (o, a, b) in fs if o in ('<=', '<') and a == tk and re.match(r'^n:-?\d+$', b)]
+                        db = [int(b[2:]) - (1 if o == '<' else 0) for (o, a, b) in fs if o in ('<=', '<') and a == dk and re.match(r'^n:-?\d+$', b)]
+                        ok = bool(vb) and bool(db) and min(vb) * c_ + min(db) <= hi
+                        ok = ok or any(o == '<=' and a == tk and b in ('((n:%d - %s) / n:%d)' % (hi, dk, c_),) for (o, a, b) in fs)
+                        n += 1
+                        ctx.check(ok, rule, '%s = %s * %d + %s is guarded against overflow in %s' % (tk.split('#')[0], tk.split('#')[0], c_, dk.split('#')[0], fname(fkey)), x,
+                                  'the accumulation step can overflow: no dominating tests bound %s and %s so that %s * %d + %s stays '
+                                  'representable (a range check after the loop comes too late: the overflow is undefined behaviour, and a '
+                                  'wrapped value can pass it)' % (tk.split('#')[0], dk.split('#')[0], tk.split('#')[0], c_, dk.split('#')[0]),
+                                  construct='ovf:%s:fused' % fname(fkey), detail='guard present on every path')
         if op_ is None:
             continue
         tk, rk = keys.key(tgt), keys.key(rhs)
